@@ -278,6 +278,13 @@ def check_term(case, D, out):
     k = D.k
     exact = D.exact and case["op"] in ("sum", "prod", "integrate", "weight", "vdot", "s_sum", "s_prod", "s_integrate",
                                        "s_vdot", "add", "sub", "mul", "adds", "muls", "rsubs")
+    if case["op"] == "weight" and case.get("power", 1) < 0:
+        # 1/v is exact in float64 only for powers of two
+        def pow2(fr):
+            n = abs(Fraction(fr).numerator)
+            return n & (n - 1) == 0
+        if not all(pow2(x) for v in D.vols if v[0] != "N" for x in ([v[1]] if v[0] == "U" else v[1])):
+            exact = False
     if case["op"] in ("prod", "s_prod") and scale_of(case, D) > 2.0 ** 50:
         exact = False        # the product itself leaves the exactly representable integers
     eps = Fraction(0) if exact else Fraction(scale_of(case, D)) / 2 ** 40
@@ -416,6 +423,27 @@ def all_space_args(rng, k):
 def gen_cases(ctx):
     rng = ctx.rng(6)
     cases = []
+    # call histories on ONE domain object (DomainTuples are cached): different powers / sub-domains /
+    # contractions one after the other -- a result must not depend on what was computed before
+    for specs, order in (([["DOF", [0.5, 4.0]]], "neg_first"), ([["RG", [2], [0.5], False], ["PS", [4], [0.25]]], "neg_first"),
+                         ([["GL", 2, 3]], "neg_first"), ([["DOF", [2.0, 0.25, 4.0]], ["U", [2]]], "pos_first"),
+                         ([["PS", [4, 4], [0.25, 0.5]]], "pos_first")):
+        D = Dom(specs)
+        n = int(np.prod(D.sizes))
+        pp = [i for i, v in enumerate(D.vols) if v[0] == "P"][0]
+        seq = [("weight", -1, [pp]), ("integrate", None, [pp]), ("mean", None, [pp]), ("var", None, [pp]), ("weight", 1, None if D.vols.count(("N",)) == 0 else [pp]),
+               ("weight", 2, [pp]), ("s_var", None, None), ("s_mean", None, None), ("s_integrate", None, None), ("weight", -1, pp), ("integrate", None, pp)]
+        if order == "pos_first":
+            seq = [("integrate", None, [pp]), ("weight", 2, [pp]), ("weight", -1, [pp]), ("mean", None, pp), ("weight", 1, [pp]), ("var", None, [pp]),
+                   ("weight", 0, [pp]), ("weight", -1, [pp])]
+        for op, pw, sp in seq:
+            if op.startswith("s_") and any(v[0] == "N" for v in D.vols):
+                continue
+            dt = ["int64", "float64", "complex128"][int(rng.integers(0, 3))]
+            c = {"dom": specs, "dtype": dt, "data": gen_data(rng, n, dt), "op": op, "spaces": sp}
+            if pw is not None:
+                c["power"] = pw
+            cases.append(c)
     ndom = 14 if ctx.quick else 120
     dtypes = ["int64", "float64", "complex128"]
     for d in range(ndom):
